@@ -494,8 +494,8 @@ func (fx *FnExec) freshVal0(t types.Type, name string) Val {
 	return nil
 }
 
-// lengths and offsets are below 2^46: an object cannot exceed the amd64 user address space
-const maxLenBits = 46
+// lengths and offsets are below 2^45: an object cannot exceed the amd64 user address space
+const maxLenBits = 45
 
 func (fx *FnExec) assumeSliceInv(s SliceV) {
 	c := fx.c
